@@ -1,1 +1,99 @@
-fn main() { unimplemented!() }
+//! h-misc — two phases over the syscall seam `sysx` (DESIGN.md S2):
+//!
+//! * `sleep` (C19, clause "sleep(d) returns no earlier than d"): `tiny_std::thread::sleep`
+//!   and the `rusl::time::nanosleep*` wrappers against a model kernel with a VIRTUAL
+//!   clock; every script of interruptions is enumerated, nothing really sleeps.
+//! * `print` (C15, writer clause for `tiny-std/src/unix/print.rs`): the print!/println!/
+//!   eprint!/eprintln!/dbg! macros and the `__UnixWriter` helpers against a model kernel
+//!   that answers every `write`/`writev` on fd 1/2 from a script of short counts, EINTR
+//!   and errors and records the accepted bytes instead of writing them.
+//!
+//! Both run in forked shards (`common::run_isolated`): the seam is per-thread.
+
+use common::*;
+use serde_json::Value;
+use std::cell::{Cell, RefCell};
+
+mod print;
+mod sleep;
+
+fn main() {
+    let args = parse_args();
+    install_panic_hook();
+    if let Some(p) = &args.replay {
+        let v = read_replay(p);
+        let mut r = Report::new();
+        shard_begin(&mut r, None);
+        match v["phase"].as_str().unwrap_or("") {
+            "sleep" => sleep::replay(&v, &mut r),
+            "print" => print::replay(&v, &mut r),
+            other => panic!("replay file has unknown phase {other:?}"),
+        }
+        shard_end();
+        for v in r.violations.values() {
+            println!("VIOLATED {}: {}", v.key, v.desc);
+        }
+        if r.violations.is_empty() {
+            println!("no violation");
+        }
+        std::process::exit(if r.violations.is_empty() { 0 } else { 1 });
+    }
+    let phase = args.phase.clone().unwrap_or_else(|| "sleep".into());
+    let r = match phase.as_str() {
+        "sleep" => sleep::phase(&args),
+        "print" => print::phase(&args),
+        _ => panic!("unknown phase {phase:?} (sleep | print)"),
+    };
+    r.write(&args.out);
+}
+
+// ---------------------------------------------------------------------------
+// Leaving a livelocked case.  A plan runs inside the SIGSYS handler of the thread
+// that executes the code under test; when the code under test keeps issuing calls
+// past the horizon there is no way back into the harness loop (no unwinding out of
+// a signal frame).  The plan then records the violation in the shard's report,
+// writes the report where `common::run_isolated` expects it and leaves the process.
+// The remaining cases of that shard are not run (recorded as a cap).
+
+thread_local! {
+    static SHARD_REPORT: Cell<*mut Report> = const { Cell::new(std::ptr::null_mut()) };
+    static SHARD_PATH: RefCell<Option<String>> = const { RefCell::new(None) };
+}
+
+/// `path`: where `run_isolated` reads this shard's report (`<out>.shard<i>`); None in replay mode.
+pub fn shard_begin(r: &mut Report, path: Option<String>) {
+    SHARD_REPORT.with(|c| c.set(r as *mut Report));
+    SHARD_PATH.with(|p| *p.borrow_mut() = path);
+}
+pub fn shard_end() {
+    SHARD_REPORT.with(|c| c.set(std::ptr::null_mut()));
+}
+pub fn shard_path(out: &str, item_index: usize) -> String {
+    // the naming used by common::run_isolated
+    format!("{out}.shard{item_index}")
+}
+
+pub fn bail(key: &str, desc: String, case: Value) -> ! {
+    let rp = SHARD_REPORT.with(|c| c.get());
+    if rp.is_null() {
+        eprintln!("livelock outside a shard: {key}: {desc}");
+        unsafe { libc::abort() }
+    }
+    // the harness loop that owns the report is suspended below this signal frame and is never resumed
+    let r = unsafe { &mut *rp };
+    r.eval();
+    r.outcome("livelock");
+    r.violation(key, desc.clone(), case);
+    r.cap(format!("shard stopped at a livelocked case ({key}); its remaining cases were not run"));
+    let path = SHARD_PATH.with(|p| p.borrow().clone());
+    match path {
+        Some(p) => {
+            std::fs::write(&p, serde_json::to_vec(&r.to_wire()).unwrap()).unwrap();
+            unsafe { libc::_exit(0) }
+        }
+        None => {
+            println!("VIOLATED {key}: {desc}");
+            unsafe { libc::_exit(1) }
+        }
+    }
+}
